@@ -143,6 +143,9 @@ pub fn run(ctx: &Ctx) -> Result<Report, String> {
     // second pass over one-byte and >= 64 KiB operations (buffer re-allocation thresholds)
     let (big_depth, big_cap) = ctx.tier.pick((7, 210_000), (9, 280_000));
     let qb = super::ioqueue::explore_big(ctx, big_depth, big_cap, &viol, &samples);
+    // third pass: a 3.3 MB chunk with consumes of more than 1 MiB and more than 2 MiB
+    let huge_depth = ctx.tier.pick(4, 5);
+    let qh = super::ioqueue::explore_huge(ctx, huge_depth, 7_000_000, &viol, &samples);
     let merged = run_terminal(ctx, Focus::C16, "C16")?;
     // hooks-inert conformance pass on the real kernel (in a child process: it changes TERM and
     // plays with signals); samples the kernel's schedules, decides nothing
@@ -153,9 +156,11 @@ pub fn run(ctx: &Ctx) -> Result<Report, String> {
     if let Some(u) = merged.notes.get("unit") {
         s.extend(u.iter().take(3).cloned());
     }
-    r.set("states", q.states + qb.states)
-        .set("transitions", q.transitions + qb.transitions)
-        .set("traces_validated_against_impl", q.transitions + qb.transitions + c("executions"))
+    r.set("states", q.states + qb.states + qh.states)
+        .set("transitions", q.transitions + qb.transitions + qh.transitions)
+        .set("traces_validated_against_impl", q.transitions + qb.transitions + qh.transitions + c("executions"))
+        .set("ioqueue_huge_operations", json!({"states": qh.states, "transitions": qh.transitions, "levels": qh.levels, "depth_bound": huge_depth,
+            "alphabet": super::ioqueue::huge_ops().iter().map(super::ioqueue::op_json).collect::<Vec<_>>(), "capped": qh.capped}))
         .set("ioqueue_big_operations", json!({"states": qb.states, "transitions": qb.transitions, "levels": qb.levels, "depth_bound": big_depth, "payload_cap": big_cap,
             "alphabet": super::ioqueue::big_ops().iter().map(super::ioqueue::op_json).collect::<Vec<_>>(), "big_sizes": super::ioqueue::BIG, "fixpoint": qb.fixpoint, "capped": qb.capped}))
         .set("ioqueue", json!({"states": q.states, "transitions": q.transitions, "levels": q.levels, "depth_bound": depth, "payload_cap": cap, "fixpoint": q.fixpoint, "capped": q.capped}))
@@ -163,8 +168,8 @@ pub fn run(ctx: &Ctx) -> Result<Report, String> {
         .set("terminal_counters", json!(merged.counters))
         .set("terminal_units", json!(merged.notes.get("unit").cloned().unwrap_or_default()))
         .set("conformance_real_pty", conf.clone())
-        .set("exhaustive", !q.capped && !qb.capped && !merged.capped && c("capped_units") == 0)
-        .set("capped", q.capped || qb.capped || merged.capped || c("capped_units") > 0)
+        .set("exhaustive", !q.capped && !qb.capped && !qh.capped && !merged.capped && c("capped_units") == 0)
+        .set("capped", q.capped || qb.capped || qh.capped || merged.capped || c("capped_units") > 0)
         .set("samples", s);
     r.assume("kernel model of the H2 seam: write accepts a prefix or fails with EAGAIN/EINTR, select may omit tty writability or fail with EINTR but never invents readiness, a waker write is atomic");
     r.assume("the peer answers the DA1 query as soon as it has received it; TERM=dumb (no capability probing)");
